@@ -143,12 +143,14 @@ func (g gcase) String() string {
 	return b.String()
 }
 
-// chooseRows builds a gcase whose first row is fixed (scenario parameter) and
-// whose other rows are free choices.
-func chooseRows(r *explore.Run, n, row0 int) gcase {
+// chooseRows builds a gcase whose first rows are fixed (scenario parameters)
+// and whose other rows are free choices.
+func chooseRows(r *explore.Run, n int, fixed ...int) gcase {
 	g := gcase{n: n, rows: make([]int, n)}
-	g.rows[0] = decodeRow(row0, n)
-	for i := 1; i < n; i++ {
+	for i, f := range fixed {
+		g.rows[i] = decodeRow(f, n)
+	}
+	for i := len(fixed); i < n; i++ {
 		g.rows[i] = decodeRow(r.Free(nopts(n), fmt.Sprintf("row-p%d", i)), n)
 	}
 	return g
